@@ -91,6 +91,15 @@ pub fn pool() -> &'static Pool {
                 let mut rng = crate::seams::SimRng::new(&crate::seams::RngPlan { seed: 77 + i as u64, personality: crate::seams::Personality::Uniform });
                 let sp = SurjectionProof::new(secp, &mut rng, tag, abf, &inputs).expect("surjection proof");
                 surjproofs.push(sp);
+            } else if i < 10 {
+                // proofs with parameters the library's own blinding never uses: exact-value proofs (exponent -1, a
+                // one-byte header, hardly any message capacity), a one-bit range, a non-zero exponent
+                let (min_value, exp, min_bits) = [(value, -1i32, 0u8), (value, -1, 0), (value.saturating_sub(1), 0, 1), (1, 2, 10)][i - 6];
+                let msg = p.bytes([0usize, 0, 3, 16][i - 6]);
+                let sk = secret_key(&mut p);
+                if let Ok(rp) = RangeProof::new(secp, min_value, c, value, vbf, &msg, &[], sk, exp, min_bits, g) {
+                    rangeproofs.push(rp);
+                }
             }
         }
         Pool { gens, comms, pks, tweaks, rangeproofs, surjproofs }
@@ -262,7 +271,7 @@ impl TxSpec {
             confidential: p.chance(2, 3),
             in_witness: p.chance(1, 2),
             out_witness: p.chance(1, 2),
-            max_blob: if many_in || many_out { 40 } else { *p.pick(&[40usize, 300, 300, 70_000]) },
+            max_blob: if many_in || many_out { 40 } else if p.chance(1, 40) { 140_000 } else { *p.pick(&[40usize, 300, 300, 70_000]) },
             corpus: None,
             sparse_witness: p.chance(1, 6),
         }
@@ -330,15 +339,17 @@ pub fn txin(p: &mut Prng, s: &TxSpec, first: bool, with_witness: bool) -> TxIn {
     if s.coinbase && first {
         i.previous_output = OutPoint::null();
     } else {
-        let vout = match p.below(5) {
-            0 => 0,
-            1 => p.below(4) as u32,
-            2 => (1 << 30) - 1,
+        let vout = match p.below(16) {
+            0..=2 => 0,
+            3..=5 => p.below(4) as u32,
+            6..=8 => (1 << 30) - 1,
+            // index 0xffffffff under a non-null txid: no flag can be carried (canonical only without pegin / issuance)
+            9 => 0xffff_ffff,
             _ => p.below(1 << 30) as u32,
         };
         i.previous_output = OutPoint::new(txid(p), vout);
-        i.is_pegin = s.pegin && p.chance(1, 2);
-        if s.issuance && p.chance(1, 2) {
+        i.is_pegin = vout != 0xffff_ffff && s.pegin && p.chance(1, 2);
+        if vout != 0xffff_ffff && s.issuance && p.chance(1, 2) {
             i.asset_issuance = issuance(p, s.confidential);
         }
         // index 2^30-1 with both flags encodes as 0xffffffff, which the format reserves for "no flags"
